@@ -105,4 +105,11 @@ var items = []modItem{
 	{"NBT", Item{Dir: "nbt", Kind: "const", Func: "TagCompound", Name: "TagCompound"}},
 	{"NBT", Item{Dir: "nbt", Kind: "const", Func: "TagIntArray", Name: "TagIntArray"}},
 	{"NBT", Item{Dir: "nbt", Kind: "const", Func: "TagLongArray", Name: "TagLongArray"}},
+	// the placeholder for the Packet Length in packWithCompression is MaxVarIntLen bytes at all three sites (syntactic facts)
+	{"Packet", Item{Dir: "net/packet", Kind: "occurs", Recv: "Packet", Func: "packWithCompression", Err: "buff.Write(make([]byte, MaxVarIntLen))", Name: "Pack_padWrite"}},
+	{"Packet", Item{Dir: "net/packet", Kind: "occurs", Recv: "Packet", Func: "packWithCompression", Err: "VarInt(buff.Len() - MaxVarIntLen)", Name: "Pack_padLength"}},
+	{"Packet", Item{Dir: "net/packet", Kind: "occurs", Recv: "Packet", Func: "packWithCompression", Err: "buff.Next(MaxVarIntLen - packetLengthLen)", Name: "Pack_padNext"}},
+	// ---- level (C12): width tables of the two palette configurations (they read a package variable: extra parameter) ----
+	{"Level", Item{Dir: "level", Kind: "func", Recv: "statesCfg", Func: "bits", Name: "statesCfg_bits"}},
+	{"Level", Item{Dir: "level", Kind: "func", Recv: "biomesCfg", Func: "bits", Name: "biomesCfg_bits"}},
 }
